@@ -159,7 +159,9 @@ pub const FRACS: [&str; 6] = ["", ".5", ".000000001", ".999999999", ".9999999999
 pub const STYLES: [&str; 3] = ["upper", "lower", "space"];
 
 const DAY: i128 = 86400 * NS;
-pub const DELTAS: [(&str, i128); 11] = [
+pub const DELTAS: [(&str, i128); 18] = [
+    ("-2000y", -730_000 * DAY),
+    ("-293y", -106_945 * DAY),
     ("-1y", -365 * DAY),
     ("-1d", -DAY),
     ("-1s", -NS),
@@ -171,11 +173,20 @@ pub const DELTAS: [(&str, i128); 11] = [
     ("+1d", DAY),
     ("+1y", 365 * DAY),
     ("+100y", 36500 * DAY),
+    // beyond what a 64-bit nanosecond count can hold (about 292.3 years)
+    ("+292y", 106_580 * DAY),
+    ("+293y", 106_945 * DAY),
+    ("+300y", 109_500 * DAY),
+    ("+2000y", 730_000 * DAY),
+    ("+9000y", 3_285_000 * DAY),
 ];
 
 struct Fixture {
     /// top-level zero-step layout signed by the owner, as JSON
     top: Value,
+    /// top-level layout with a key table, a step with rules and a satisfying link (in `full_dir`)
+    full: Value,
+    full_dir: std::path::PathBuf,
     /// outer layout with one delegated step; inner layout block as JSON
     outer: Metablock,
     inner: Value,
@@ -187,7 +198,11 @@ fn fixture() -> Fixture {
     let top = world::block_value(&world::sign_layout(world::layout(vec![], vec![], &[], world::far_future()), &[owner]));
     let outer = world::sign_layout(world::layout(vec![world::step("s", 1, &[a])], vec![], &[a], from_ns(200_000 * 365 * DAY).unwrap()), &[owner]);
     let inner = world::block_value(&world::sign_layout(world::layout(vec![], vec![], &[], world::far_future()), &[a]));
-    Fixture { top, outer, inner }
+    let st = world::step("s", 1, &[a]).add_expected_product(in_toto::models::rule::ArtifactRule::Create(world::vpath("p"))).add_expected_product(in_toto::models::rule::ArtifactRule::Disallow(world::vpath("*")));
+    let full = world::block_value(&world::sign_layout(world::layout(vec![st], vec![], &[a], world::far_future()), &[owner]));
+    let full_dir = util::fresh_dir("c06full");
+    world::write(&full_dir, &world::link_file("s", a), &world::block_text(&world::sign_link(world::link("s", Default::default(), world::arts(&[("p", 1)])), &[a])));
+    Fixture { top, full, full_dir, outer, inner }
 }
 
 /// Build a validly signed block whose `expires` text is `text`: the library
@@ -233,6 +248,7 @@ fn judge(acc: &mut Acc, what: &str, text: &str, delta: &str, dns: i128, v: &Verd
     match v {
         Verdict::Ok(_) => {
             acc.accepting += 1;
+            acc.note(&format!("accepted:{what}"));
             if dns > 0 {
                 let class = if dns < NS { "sub-second" } else { "whole-seconds" };
                 acc.violation(
@@ -305,7 +321,7 @@ pub fn run(tier: Tier) -> i32 {
         acc.sample(|| json!({"level": "wall-clock", "cases": wall.len()}));
         c.acc = acc;
         c.exhaustive = false;
-        c.rule = "degraded run (no clock seam): expiry = real clock + {-1y,-1d,-1h,-2s,+1h,+1d,+1y} in 4 offset notations through the hooks-off binary".into();
+        c.rule = "degraded run (no clock seam): expiry = real clock + {-1y,-1d,-1h,-2s,+1h,+1d,+1y} and the absolute years 0002, 1000, 1700 in 4 offset notations through the hooks-off binary under 4 process time zones".into();
         c.bound_completed = "wall-clock leg only".into();
         return c.finish();
     }
@@ -343,6 +359,17 @@ pub fn run(tier: Tier) -> i32 {
                     }
                 }
             }
+            // ---- top level, a layout that has something to verify (key table, step, rules, link)
+            if *ci % sub_every == 1 % sub_every {
+                if let Some(block) = signed_with_expiry(&text, &fx.full, owner) {
+                    for (dname, dns) in DELTAS {
+                        let Some(now) = from_ns(exp_ns + dns) else { continue };
+                        let drv = Driver { clock: Some(now), permute: true, ..Driver::default() };
+                        let (v, _) = world::verify_with(&block, world::owner_map(&[owner]), &fx.full_dir, drv);
+                        judge(acc, "top-level-with-step", &text, dname, dns, &v, &|| json!({"level": "full", "expires": text, "delta": dname, "delta_ns": dns.to_string()}));
+                    }
+                }
+            }
             // ---- delegated sub-layout under an unexpired parent
             if *ci % sub_every == 0 {
                 if let Some(inner) = signed_with_expiry(&text, &fx.inner, a) {
@@ -365,11 +392,17 @@ pub fn run(tier: Tier) -> i32 {
         },
     );
     c.acc = Acc::merge_all(accs.into_iter().map(|(a, _)| a).collect());
+    // non-vacuity: every leg must have accepted unexpired layouts, or the leg decides nothing
+    for leg in ["top-level", "top-level-with-step", "sub-layout"] {
+        let n = c.acc.notes.get(&format!("accepted:{leg}")).copied().unwrap_or(0);
+        c.selftest(&format!("leg-accepts-unexpired:{leg}"), n > 0, "no layout of this leg was accepted at all: the fixture is broken or the library rejects everything");
+    }
     // ---- hook-free leg: the hooks-off binary on the real clock
     let wall = crate::plain::wallclock_plain();
     let mut wall_ok = 0;
     for (text, delta_s, outcome) in &wall {
         c.acc.evaluations += 1;
+        c.acc.nontrivial += 1;
         c.acc.outcome(&format!("wall-clock|{}|{}", if *delta_s < 0 { "expired" } else { "not-expired" }, if outcome.starts_with("ok") { "ok" } else { "err" }));
         if outcome.starts_with("ok") {
             wall_ok += 1;
@@ -382,11 +415,12 @@ pub fn run(tier: Tier) -> i32 {
             }
         }
     }
-    c.extra.insert("wall_clock_leg".into(), json!({"cases": wall.len(), "accepted": wall_ok, "note": "hooks-off binary, real clock; confirms the clock seam changes nothing"}));
+    c.selftest("leg-accepts-unexpired:wall-clock", wall_ok > 0, "the hooks-off binary accepted no layout at all");
+    c.extra.insert("wall_clock_leg".into(), json!({"cases": wall.len(), "accepted": wall_ok, "time_zones": crate::plain::TIME_ZONES, "note": "hooks-off binary, real clock, run once per process time zone; confirms the clock seam changes nothing and that the clock read itself is zone-independent"}));
     c.rule = format!(
-        "grid: {} base instants x {} offset notations x {} sub-second spellings x {} separator/case styles (+ leap-second spelling) x {} verification times (expiry + delta); each point is one in_toto_verify run with the clock seam set; sub-layout grid = same expiry texts on a delegated layout under an unexpired parent (every {} notation); non-trivial = notations the reference reader understands",
+        "grid: {} base instants x {} offset notations x {} sub-second spellings x {} separator/case styles (+ leap-second spelling) x {} verification times (expiry + delta); each point is one in_toto_verify run with the clock seam set; the same grid on a layout with a key table, a step with rules and a satisfying link (every {5} notation); sub-layout grid = same expiry texts on a delegated layout under an unexpired parent (every {} notation); non-trivial = notations the reference reader understands",
         BASES.len(), OFFSETS.len(), FRACS.len(), STYLES.len(), DELTAS.len(), sub_every
-    );
+    ) + "; wall-clock leg: expiry = real clock + {-1y,-1d,-1h,-2s,+1h,+1d,+1y} and the absolute years 0002, 1000, 1700 in 4 offset notations, hooks-off binary, under 4 process time zones";
     c.bound_completed = "complete grid".into();
     c.assume("chrono's DateTime::from_timestamp builds the instant it is given (the verification time is constructed from the reference reader's nanoseconds)");
     c.assume("the clock seam (hook H3) is the only time source of the verdict path");
@@ -403,7 +437,10 @@ pub fn replay(case: &Value) -> Value {
     let Some(now) = from_ns(exp + dns) else { return json!({"error": "now not representable", "violation": null}) };
     let dir = util::fresh_dir("c06r");
     let drv = Driver { clock: Some(now), permute: true, ..Driver::default() };
-    let v = if case["level"] == "sub" {
+    let v = if case["level"] == "full" {
+        let Some(block) = signed_with_expiry(text, &fx.full, owner) else { return json!({"error": "unparseable", "violation": null}) };
+        world::verify_with(&block, world::owner_map(&[owner]), &fx.full_dir, drv).0
+    } else if case["level"] == "sub" {
         let Some(inner) = signed_with_expiry(text, &fx.inner, a) else { return json!({"error": "unparseable", "violation": null}) };
         let mut j = world::block_value(&inner);
         j["signed"]["expires"] = json!(text);
